@@ -101,6 +101,7 @@ type tarSpec struct {
 	files   map[string]tarEntry            // logical regular files
 	dirs    map[string]*hackpadfs.FileMode // logical directories: explicit ones carry their mode, implicit ones nil
 	escape  string                         // an escaping header name, if any
+	root    *hackpadfs.FileMode            // permission bits of an explicit entry for the root itself, if there is one
 }
 
 // normName is the spec's own normalisation: drop empty and '.' elements.
@@ -199,6 +200,12 @@ func genTarSpec(t *T, small, big int, maxEntries int) *tarSpec {
 		}
 		e.spell = spellName(t, name, dir)
 		sp.entries = append(sp.entries, e)
+	}
+	if c.Chance(1, 8) {
+		// the root itself as an entry (what a walk-built archive starts with), in one of its spellings
+		m := perms[c.Draw(len(perms))]
+		sp.root = &m
+		sp.entries = append(sp.entries, tarEntry{name: ".", spell: []string{"./", ".", "/", "a/.."}[c.Draw(4)], dir: true, perm: m})
 	}
 	// archive order: any (children before parents is fine)
 	perm := c.Perm(len(sp.entries))
@@ -314,6 +321,11 @@ func judgeTarTree(fs hackpadfs.FS, sp *tarSpec, which string) (string, string) {
 			if mode != nil && e.Perm != *mode {
 				return "wrong-dir-mode", fmt.Sprintf("%s: directory %q has permission bits %04o, its archive entry says %04o", which, p, e.Perm, *mode)
 			}
+		}
+	}
+	if sp.root != nil {
+		if info, err := hackpadfs.Stat(fs, "."); err != nil || info.Mode().Perm() != *sp.root {
+			return "wrong-dir-mode", fmt.Sprintf("%s: the root has permission bits %v (err %v), its archive entry says %04o", which, info, err, *sp.root)
 		}
 	}
 	for p := range sp.files {
